@@ -117,7 +117,9 @@ def walkDesc (start : List Nat) : Nat → Nat → List (Nat × Nat)
     let s := start.getD i 0
     (List.range' s (posEnd - s)).map (fun p => (i, p)) ++ walkDesc start i s
 
-def qEntries (m : MatrixModel) : List (Nat × Nat) := walkDesc m.Q.start m.n m.Q.nnz
+/-- every walk over `Q` in the code is guarded by `if (Q.num_nz_)` -/
+def qEntries (m : MatrixModel) : List (Nat × Nat) :=
+  if m.Q.nnz = 0 then [] else walkDesc m.Q.start m.n m.Q.nnz
 
 def qCol (m : MatrixModel) (pos : Nat) : Nat := m.Q.index.getD pos 0
 def qVal (m : MatrixModel) (pos : Nat) : Rat := m.Q.value.getD pos 0
